@@ -1,26 +1,30 @@
 """admin/certificate_v1.py: structural parse (C16) and chain validation (C06) of version-1 (Ledger) certificates."""
 from .common import *
-from spec.certs import NAMES, elements_wf, target_ok, link_ok, verdict_of, results_wf, has_verdict, value_of, element_wf
+from spec.certs import NAMES, elements_wf, target_ok, link_ok, verdict_of, results_wf, has_verdict, value_of, element_wf, ROOT_PUBKEY
 
 ELEM = OBJ("admin.certificate_v1:HSMCertificateElement", _name=STR_, _signed_by=JSON_, _tweak=JSON_,
            _message=STR_, _signature=STR_)
 ELEMENTS = FMAP(NAMES, ELEM)
-ROOT = OBJ("admin.certificate_v1:HSMCertificateRoot", pubkey=OPAQUE("pubkey"))
+ROOT = OBJ("admin.certificate_v1:HSMCertificateRoot", pubkey=CONST(ROOT_PUBKEY))
 
 
 @contract("admin/certificate_v1.py", "HSMCertificateElement.is_valid", serves=["C06", "C16", "C07"])
 class ElementIsValid(Contract):
-    assume_only = True
-    assumptions = ["A-CRYPTO: HSMCertificateElement.is_valid(certifier) is the uninterpreted predicate cert.link_valid(message, "
-                   "signature, tweak, key of certifier) - secp256k1 ECDSA over sha256(message), key tweaked by HMAC-SHA256 when a "
-                   "tweak is declared; any library exception yields False (the body is one try/except Exception)"]
+    """verified (not assumed): the body computes the property's link condition over the crypto primitives, and every
+    library failure ends in False"""
+    assumptions = ["A-CRYPTO: secp256k1 (PublicKey parse / serialize / tweak_add / ecdsa_deserialize / ecdsa_verify) and hmac.new as "
+                   "uninterpreted functions (spec/certs.py); sha256 inside ecdsa_verify is part of secp.ecdsa_verify"]
     self_spec = ELEM
     params = dict(certifier=ONEOF(ELEM, ROOT))
     result = BOOL_
     pure = True
 
-    def is_the_link_predicate(self, certifier, result): return result == link_ok(self, certifier)
-    ensures = [is_the_link_predicate]
+    def constructed(self, certifier):
+        return element_wf(self) and element_wf(certifier)
+    requires = [constructed]
+
+    def is_the_link_condition(self, certifier, result): return result == link_ok(self, certifier)
+    ensures = [is_the_link_condition]
 
 
 CERT = OBJ("admin.certificate_v1:HSMCertificate", _targets=JSON_, _elements=ELEMENTS)
@@ -66,7 +70,7 @@ class GetValue(Contract):
     def constructed(self): return element_wf(self)
     requires = [constructed]
 
-    def is_the_designated_part(self, result): return result == value_of(self)
+    def is_the_designated_part(self, result): return result == value_of(self) and is_hex(result)
     ensures = [is_the_designated_part]
 
 
@@ -95,3 +99,41 @@ class ValidateAndGetValues(Contract):
     def every_target_has_a_verdict(self, result):
         return forall_int(0, jlen(self._targets), lambda k: has_verdict(result, jitem(self._targets, k)))
     ensures = [every_verdict_is_the_specified_one, every_target_has_a_verdict]
+
+
+# ------------------------------------------------------------------------------------------- C16: v1 element save / load
+@contract("admin/certificate_v1.py", "HSMCertificateElement.to_dict", serves=["C16"])
+class ElementToDict(Contract):
+    """what is written for an element is exactly what its verdict depends on (name, message, signature, certifier,
+    tweak); together with ElementInit (what is read back) this is the element-level round trip"""
+    self_spec = ELEM
+    params = {}
+    pure = True
+
+    def constructed(self): return element_wf(self)
+    requires = [constructed]
+
+    def writes_every_field(self, result):
+        return (result["name"] == self._name and result["message"] == self._message and result["signature"] == self._signature
+                and same_json(result["signed_by"], self._signed_by))
+    def writes_the_tweak_iff_there_is_one(self, result):
+        if "tweak" in result:
+            return jtag(self._tweak) != 0 and same_json(result["tweak"], self._tweak)
+        return jtag(self._tweak) == 0
+    ensures = [writes_every_field, writes_the_tweak_iff_there_is_one]
+
+
+@contract("admin/certificate_v1.py", "HSMCertificateElement.__init__", serves=["C16"])
+class ElementInit(Contract):
+    self_spec = OBJ("admin.certificate_v1:HSMCertificateElement")
+    params = dict(element_map=JSON_)
+    pure = True
+    exception_serves = ()
+
+    def reads_back_every_field(self, element_map):
+        return (same_json(self._name, element_map["name"]) and same_json(self._message, element_map["message"])
+                and same_json(self._signature, element_map["signature"]) and same_json(self._signed_by, element_map["signed_by"])
+                and (same_json(self._tweak, element_map["tweak"]) if jhas(element_map, "tweak") else is_none(self._tweak)))
+    def constructed(self): return element_wf(self)
+    ensures = [reads_back_every_field, constructed]
+    raises = {"Exception": Exc()}
